@@ -203,7 +203,7 @@ Record state := {
   s_ops : list cop;
   s_fin : list (Z * Z);                  (* finished tasks: op -> error, until their FINTASK line *)
   s_done : list (rpc * Z);               (* completed long RPCs: descriptor -> class seen by the caller *)
-  s_out : list rpc;                      (* curator RPCs issued during the current event *)
+  s_out : list Z;                        (* pool ids of the curator RPCs issued during the current event *)
   s_acked : list (Z * Z * wrec);         (* ghost: acknowledged writes (blob, wid, range in blob), newest first *)
   s_att : list (Z * Z * wrec);           (* ghost: every write attempt started (blob, wid, range in blob), newest first *)
   s_nsynth : Z
@@ -351,7 +351,7 @@ Definition issue (st : state) (r : rpc) (owner : Z) : state :=
   set_next (set_pool st (s_pool st ++ [e])) (s_next st + 1).
 
 Definition issue_cur (st : state) (r : rpc) (owner : Z) : state :=
-  let st1 := issue st r owner in set_out st1 (s_out st1 ++ [r]).
+  let st1 := issue st r owner in set_out st1 (s_out st1 ++ [s_next st]).
 
 Fixpoint find_pent (pool : list pent) (r : rpc) (st_wanted : Z) : option pent :=
   match pool with
@@ -709,8 +709,10 @@ Definition parse_rpc (l : list Z) : option (rpc * list Z) :=
   | _ => None
   end.
 
+(* the curator RPCs issued during this event that are still under way at its end *)
 Definition out_section (st : state) : list Z :=
-  let l := sort_rpcs (s_out st) in Z.of_nat (length l) :: flat_map rpc_line l.
+  let l := sort_rpcs (map p_rpc (filter (fun e => zmem (p_id e) (s_out st)) (s_pool st))) in
+  Z.of_nat (length l) :: flat_map rpc_line l.
 
 Definition is_ts_kind (k : Z) : bool := (K_Create <=? k) && (k <=? K_PullTract).
 
